@@ -18,6 +18,14 @@ class Oracle:
         try:
             self.p.stdin.write(json.dumps(kw) + '\n')
             self.p.stdin.flush()
+            import select
+            ready, _, _ = select.select([self.p.stdout], [], [], kw.get('_timeout', 300))
+            if not ready:
+                # the helper hangs (e.g. a formatter that never terminates): kill it and say so
+                self.p.kill()
+                self.p.wait()
+                self.p = subprocess.Popen([BIN], stdin=subprocess.PIPE, stdout=subprocess.PIPE, text=True, bufsize=1, env=self.env)
+                return {'hang': True}
             line = self.p.stdout.readline()
         except BrokenPipeError:
             line = ''
@@ -49,3 +57,6 @@ class Oracle:
 
     def concurrent(self, sources, options=None, rounds=4):
         return self.req(cmd='concurrent', sources=sources, options=options or {}, rounds=rounds)
+
+    def seq(self, steps):
+        return self.req(cmd='seq', steps=steps)
